@@ -692,3 +692,435 @@ Proof.
 Qed.
 
 End P.
+
+(* ------------------------------------------------------------------ display width *)
+Section Width.
+Variable ch_width : N -> N.
+Notation display_width := (display_width ch_width).
+Notation dw_aux := (dw_aux ch_width).
+
+(** sum of the character widths *)
+Definition sumw (s : list N) : N := fold_right (fun c a => ch_width c + a) 0 s.
+
+Lemma sumw_app a b : sumw (a ++ b) = sumw a + sumw b.
+Proof.
+  induction a as [|c a IH]; cbn [app sumw fold_right]; [reflexivity|].
+  fold (sumw (a ++ b)) (sumw a). rewrite IH. lia.
+Qed.
+
+Lemma no_ctrl_app a b : no_ctrl (a ++ b) = no_ctrl a && no_ctrl b.
+Proof. apply forallb_app. Qed.
+
+Lemma dw_aux_no_ctrl a : no_ctrl a = true ->
+  forall r acc, dw_aux (a ++ r) false acc = dw_aux r false (acc + sumw a).
+Proof.
+  induction a as [|c a IH]; intros H r acc.
+  - cbn [app sumw fold_right]. rewrite N.add_0_r. reflexivity.
+  - cbn [no_ctrl forallb] in H. apply andb_true_iff in H. destruct H as [H1 H2].
+    apply negb_true_iff in H1. cbn [app WrapModel.dw_aux]. rewrite H1. cbn [andb].
+    rewrite (IH H2). f_equal. cbn [sumw fold_right]. fold (sumw a). lia.
+Qed.
+
+(** without control characters the display width is the sum of the character widths *)
+Lemma display_width_no_ctrl a : no_ctrl a = true -> display_width a = sumw a.
+Proof.
+  intros H. unfold WrapModel.display_width. rewrite <- (app_nil_r a) at 1.
+  rewrite (dw_aux_no_ctrl a H). cbn [WrapModel.dw_aux]. lia.
+Qed.
+
+(** inside a control sequence nothing counts until the next 'm' *)
+Lemma dw_aux_in_sequence params :
+  forallb (fun c => negb (c =? 109)) params = true ->
+  forall r acc, dw_aux (params ++ r) true acc = dw_aux r true acc.
+Proof.
+  induction params as [|c p IH]; intros H r acc; [reflexivity|].
+  cbn [forallb] in H. apply andb_true_iff in H. destruct H as [H1 H2].
+  apply negb_true_iff in H1. cbn [app WrapModel.dw_aux]. rewrite H1. cbn [andb].
+  destruct (is_ascii_control c); apply (IH H2).
+Qed.
+
+(** ESC [ params m has zero width *)
+Theorem ansi_zero a params b :
+  no_ctrl a = true -> no_ctrl b = true -> forallb (fun c => negb (c =? 109)) params = true ->
+  display_width (a ++ 27 :: 91 :: params ++ 109 :: b) = display_width a + display_width b.
+Proof.
+  intros Ha Hb Hp.
+  rewrite (display_width_no_ctrl a Ha), (display_width_no_ctrl b Hb).
+  unfold WrapModel.display_width. rewrite (dw_aux_no_ctrl a Ha).
+  cbn [WrapModel.dw_aux]. change (is_ascii_control 27) with true. cbv iota.
+  change (is_ascii_control 91) with false. change (91 =? 109) with false. cbn [andb]. cbv iota.
+  rewrite (dw_aux_in_sequence params Hp). cbn [WrapModel.dw_aux].
+  change (is_ascii_control 109) with false. change (109 =? 109) with true. cbn [andb]. cbv iota.
+  rewrite <- (app_nil_r b) at 1. rewrite (dw_aux_no_ctrl b Hb). cbn [WrapModel.dw_aux]. lia.
+Qed.
+
+(* ------------------------------------------------------------------ the width bound *)
+
+(** a line fits: within the width once trailing whitespace is removed, or nothing after its
+    whitespace indent can be broken (no U+0020 left: a single unbreakable word) *)
+Definition line_fits (hard : N) (ln : list N) : Prop :=
+  display_width (trim_end ln) <= hard \/
+  exists ind u, trim_end ln = ind ++ u /\ all_ws ind = true /\ ~ In SP u.
+
+Lemma lines_acc_app_nonl a : no_nl a -> forall cur o, lines_acc cur (a ++ o) = lines_acc (cur ++ a) o.
+Proof.
+  induction a as [|c a IH]; intros H cur o.
+  - rewrite app_nil_r. reflexivity.
+  - unfold no_nl in H. cbn [forallb] in H. apply andb_true_iff in H. destruct H as [H1 H2].
+    apply negb_true_iff in H1. cbn [app lines_acc]. rewrite H1. rewrite (IH H2).
+    rewrite <- app_assoc. reflexivity.
+Qed.
+
+Lemma lines_acc_app_nl a : forall cur b, lines_acc cur (a ++ NL :: b) = lines_acc cur a ++ lines b.
+Proof.
+  induction a as [|c a IH]; intros cur b.
+  - reflexivity.
+  - cbn [app lines_acc]. destruct (c =? NL); rewrite IH; reflexivity.
+Qed.
+
+Lemma plain_app a b : plain (a ++ b) = plain a && plain b.
+Proof. apply forallb_app. Qed.
+
+Lemma plain_no_nl_no_ctrl a : plain a = true -> no_nl a -> no_ctrl a = true.
+Proof.
+  induction a as [|c a IH]; intros H Hn; [reflexivity|].
+  cbn [plain forallb] in H. apply andb_true_iff in H. destruct H as [H1 H2].
+  unfold no_nl in Hn. cbn [forallb] in Hn. apply andb_true_iff in Hn. destruct Hn as [Hn1 Hn2].
+  change (no_ctrl (c :: a)) with (negb (is_ascii_control c) && no_ctrl a).
+  rewrite (IH H2 Hn2), andb_true_r.
+  apply negb_true_iff in Hn1. rewrite Hn1, orb_false_r in H1. exact H1.
+Qed.
+
+Lemma no_ctrl_trim a : no_ctrl a = true -> no_ctrl (trim_end a) = true.
+Proof.
+  destruct (trim_end_spec a) as [t [H _]]. intros Hc. rewrite H, no_ctrl_app in Hc.
+  apply andb_true_iff in Hc. tauto.
+Qed.
+
+Lemma plain_trim_no_ctrl w : plain w = true -> nl_last w = true -> no_ctrl (trim_end w) = true.
+Proof.
+  intros Hp Hl. destruct (nl_last_inv w Hl) as [b [Hb [-> | ->]]].
+  - apply no_ctrl_trim. apply plain_no_nl_no_ctrl; assumption.
+  - rewrite trim_end_app_ws by reflexivity. apply no_ctrl_trim.
+    rewrite plain_app in Hp. apply andb_true_iff in Hp. apply plain_no_nl_no_ctrl; tauto.
+Qed.
+
+Lemma sumw_trim_le a : sumw (trim_end a) <= sumw a.
+Proof. destruct (trim_end_spec a) as [t [H _]]. rewrite H at 2. rewrite sumw_app. lia. Qed.
+
+Lemma forallb_concat_Forall (f : N -> bool) ws :
+  forallb f (concat ws) = true -> Forall (fun w => forallb f w = true) ws.
+Proof.
+  induction ws as [|w ws IH]; intros H; [constructor|].
+  cbn [concat] in H. rewrite forallb_app in H. apply andb_true_iff in H.
+  constructor; tauto.
+Qed.
+
+Section Bound.
+Variable utf8_len : N -> N.
+Hypothesis ws_narrow : forall c, is_ws c = true -> ch_width c <= utf8_len c.
+Notation blen := (blen utf8_len).
+
+Lemma sumw_ws_le_blen t : all_ws t = true -> sumw t <= blen t.
+Proof.
+  induction t as [|c t IH]; intros H; [cbn; lia|].
+  cbn [all_ws forallb] in H. apply andb_true_iff in H. destruct H as [H1 H2].
+  cbn [sumw WrapModel.blen fold_right]. fold (sumw t) (blen t).
+  specialize (IH H2). specialize (ws_narrow c H1). lia.
+Qed.
+
+(** what [line_width] adds for a word is at least the word's real width *)
+Lemma word_sumw_bound w : plain w = true -> nl_last w = true ->
+  sumw w <= display_width (trim_end w) + (blen w - blen (trim_end w)).
+Proof.
+  intros Hp Hl. rewrite (display_width_no_ctrl _ (plain_trim_no_ctrl w Hp Hl)).
+  destruct (trim_end_spec w) as [t [H Ht]].
+  clear Hp Hl. generalize dependent (trim_end w). intros tw H. subst w.
+  rewrite sumw_app, (blen_app utf8_len).
+  pose proof (sumw_ws_le_blen t Ht). lia.
+Qed.
+
+Lemma fits_line hard cur q :
+  no_ctrl cur = true -> no_ctrl (trim_end q) = true -> ~ In SP (trim_end q) ->
+  (all_ws cur = true \/ sumw cur + sumw (trim_end q) <= hard) ->
+  line_fits hard (cur ++ q).
+Proof.
+  intros Hc Hq Hs HB. unfold line_fits. rewrite trim_end_app.
+  destruct (trim_end q) as [|x l] eqn:E.
+  - left. destruct HB as [HB|HB].
+    + rewrite (trim_end_all_ws cur HB). cbn. lia.
+    + rewrite (display_width_no_ctrl _ (no_ctrl_trim cur Hc)).
+      pose proof (sumw_trim_le cur). lia.
+  - destruct HB as [HB|HB].
+    + right. exists cur, (x :: l). tauto.
+    + left. rewrite display_width_no_ctrl, sumw_app; [exact HB|].
+      rewrite no_ctrl_app, Hc, Hq. reflexivity.
+Qed.
+
+Definition wfact (w : list N) : Prop := ~ In SP (trim_end w) /\ plain w = true.
+
+Lemma good_words_head w rest : good_words (w :: rest) -> nl_last w = true.
+Proof. intros G. inversion G; subst; [assumption|]. apply nl_last_no_nl. assumption. Qed.
+
+Lemma lines_acc_last hard cur p :
+  nl_last p = true -> line_fits hard [] ->
+  (forall p0, trim_end p0 = trim_end p -> line_fits hard (cur ++ p0)) ->
+  Forall (line_fits hard) (lines_acc cur p).
+Proof.
+  intros Hl H0 H. destruct (nl_last_inv p Hl) as [b [Hb [-> | ->]]].
+  - assert (E: lines_acc cur b = [cur ++ b]).
+    { rewrite <- (app_nil_r b) at 1. rewrite (lines_acc_app_nonl b Hb). reflexivity. }
+    rewrite E. constructor; [|constructor]. apply H. reflexivity.
+  - rewrite (lines_acc_app_nonl b Hb). cbn [lines_acc]. change (NL =? NL) with true. cbv iota.
+    constructor; [|constructor; [exact H0|constructor]].
+    apply H. rewrite trim_end_app_ws by reflexivity. reflexivity.
+Qed.
+
+Lemma line_fits_nil hard : line_fits hard [].
+Proof. left. cbn. lia. Qed.
+
+Lemma goP_fits hard c : all_ws c = true -> forall ws lw p cur,
+  good_words (p :: ws) -> Forall wfact (p :: ws) ->
+  (ws <> [] -> no_nl c /\ no_ctrl c = true) ->
+  no_ctrl cur = true ->
+  sumw cur + sumw p <= lw ->
+  (all_ws cur = true \/ sumw cur + sumw (trim_end p) <= hard) ->
+  Forall (line_fits hard)
+    (lines_acc cur (concat (fst (goP ch_width utf8_len hard (Some c) lw p ws)))).
+Proof.
+  intros Hcw. induction ws as [|w rest IH]; intros lw p cur G F Hc Hcur HA HB.
+  - cbn [goP fst concat]. rewrite app_nil_r.
+    inversion G as [|? Hl|]; subst. inversion F as [|? ? [Fs Fp] _]; subst.
+    apply lines_acc_last; [exact Hl|apply line_fits_nil|].
+    intros p0 E. apply fits_line; [exact Hcur| | |].
+    + rewrite E. apply plain_trim_no_ctrl; assumption.
+    + rewrite E. exact Fs.
+    + rewrite E. exact HB.
+  - inversion G as [| |? ? ? He Hn G']; subst.
+    inversion F as [|? ? [Fs Fp] F']; subst.
+    assert (Fw: wfact w) by (inversion F'; assumption). destruct Fw as [Fws Fwp].
+    pose proof (good_words_head _ _ G') as Hwl.
+    pose proof (plain_no_nl_no_ctrl p Fp Hn) as Hpc.
+    pose proof (word_sumw_bound w Fwp Hwl) as Hwb.
+    assert (HP': rest <> [] -> no_nl c /\ no_ctrl c = true) by (intros _; apply Hc; discriminate).
+    destruct (Hc ltac:(discriminate)) as [Hcn Hcc].
+    cbn [goP].
+    destruct (hard <? lw + WrapModel.display_width ch_width (trim_end w)) eqn:E.
+    + cbn [fst cy_out cy_len concat app].
+      assert (Hnt: no_nl (trim_end p)).
+      { destruct (trim_end_spec p) as [t [Ht _]]. rewrite Ht in Hn. apply no_nl_app in Hn. tauto. }
+      rewrite (lines_acc_app_nonl _ Hnt). cbn [lines_acc]. change (NL =? NL) with true. cbv iota.
+      constructor.
+      * apply fits_line; [exact Hcur| | |].
+        -- rewrite trim_end_idem. apply no_ctrl_trim. exact Hpc.
+        -- rewrite trim_end_idem. exact Fs.
+        -- rewrite trim_end_idem. exact HB.
+      * rewrite (lines_acc_app_nonl _ Hcn). cbn [app].
+        apply IH; [exact G'|exact F'|exact HP'|exact Hcc| |left; exact Hcw].
+        pose proof (sumw_ws_le_blen c Hcw). lia.
+    + apply N.ltb_ge in E. cbn [fst concat].
+      rewrite (lines_acc_app_nonl _ Hn).
+      apply IH; [exact G'|exact F'|exact HP'| | |].
+      * rewrite no_ctrl_app, Hcur, Hpc. reflexivity.
+      * rewrite sumw_app. lia.
+      * right. rewrite sumw_app.
+        rewrite (display_width_no_ctrl _ (plain_trim_no_ctrl w Fwp Hwl)) in E. lia.
+Qed.
+
+(** one input line, fresh wrapper *)
+Lemma wrap_line_fits st line :
+  nl_last line = true -> plain line = true -> carryover st = None -> line_width st = 0 ->
+  Forall (line_fits (hard_width st))
+    (lines (concat (fst (wrap_words ch_width utf8_len st (find_words line))))).
+Proof.
+  intros Hl Hp Hst Hlw. destruct (find_words_good line Hl) as [G Fo].
+  assert (Fp: Forall (fun w => plain w = true) (find_words line)).
+  { apply forallb_concat_Forall. rewrite find_words_concat. exact Hp. }
+  destruct (find_words line) as [|w rest] eqn:Ew.
+  - cbn. constructor; [apply line_fits_nil|constructor].
+  - rewrite wrap_words_out. unfold carry_of. rewrite Hst, Hlw. unfold lines.
+    assert (F: Forall wfact (w :: rest)).
+    { clear - Fo Fp. induction Fo as [|x l Hx Fo IH]; [constructor|].
+      inversion Fp; subst. constructor; [|apply IH; assumption].
+      split; [apply word_ok_trim; exact Hx|assumption]. }
+    assert (Fw: wfact w) by (inversion F; assumption). destruct Fw as [_ Fwp].
+    apply goP_fits; [destruct (all_ws w) eqn:Ea; [exact Ea|reflexivity]|exact G|exact F| |reflexivity| |left; reflexivity].
+    + intros Hne. destruct rest as [|n rest']; [congruence|].
+      inversion G as [| |? ? ? He Hn G']; subst.
+      destruct (all_ws w); [|split; reflexivity].
+      split; [exact Hn|apply plain_no_nl_no_ctrl; assumption].
+    + pose proof (word_sumw_bound w Fwp (good_words_head _ _ G)). cbn [sumw fold_right]. lia.
+Qed.
+
+(** a rewrapped line that ends with a newline still ends with it *)
+Lemma WrappedP_ends_nl (P : list N -> Prop) S o : WrappedP P S o ->
+  forall s, S = s ++ [NL] -> exists o', o = o' ++ [NL].
+Proof.
+  intros W. induction W as [|c S o W IH|w ind S o Hne Hw Hn Hp W IH]; intros s E.
+  - destruct s; discriminate.
+  - destruct s as [|x s].
+    + cbn [app] in E. inversion E; subst. inversion W as [| |w ? ? ? Hne ? ? ? ? E1]; subst.
+      * exists []. reflexivity.
+      * destruct w; [congruence|discriminate].
+    + cbn [app] in E. inversion E; subst. destruct (IH s eq_refl) as [o' ->].
+      exists (x :: o'). reflexivity.
+  - destruct (@exists_last _ S) as [S2 [x HS]].
+    { intros ->. rewrite app_nil_r in E. subst w. apply no_nl_app in Hn.
+      destruct Hn as [_ Hn]. discriminate. }
+    subst S. rewrite app_assoc in E. apply app_inj_tail in E. destruct E as [_ ->].
+    destruct (IH S2 eq_refl) as [o' ->].
+    exists (NL :: ind ++ o'). cbn [app]. rewrite <- app_assoc. reflexivity.
+Qed.
+
+(** what [split_inclusive] yields: every line but the last ends with its newline *)
+Inductive good_lines : list (list N) -> Prop :=
+| gl_nil : good_lines []
+| gl_last l : no_nl l -> good_lines [l]
+| gl_cons b rest : no_nl b -> good_lines rest -> good_lines ((b ++ [NL]) :: rest).
+
+Lemma split_inclusive_aux_good s : forall cur, no_nl cur -> good_lines (split_inclusive_aux s cur).
+Proof.
+  induction s as [|c s IH]; intros cur Hc; cbn [split_inclusive_aux].
+  - destruct cur as [|x cur]; [constructor|]. apply gl_last. apply no_nl_rev. exact Hc.
+  - destruct (c =? NL) eqn:E.
+    + apply N.eqb_eq in E. subst c. cbn [rev]. apply gl_cons; [apply no_nl_rev; exact Hc|].
+      apply IH. reflexivity.
+    + apply IH. unfold no_nl. cbn [forallb]. rewrite E. exact Hc.
+Qed.
+
+Lemma wrap_lines_fits ls : forall st, good_lines ls -> Forall (fun l => plain l = true) ls ->
+  Forall (line_fits (hard_width st)) (lines (concat (wrap_lines ch_width utf8_len st ls))).
+Proof.
+  induction ls as [|line rest IH]; intros st GL FP.
+  - cbn. constructor; [apply line_fits_nil|constructor].
+  - inversion FP as [|? ? Hp FP']; subst. cbn [WrapModel.wrap_lines].
+    assert (Hl: nl_last line = true).
+    { inversion GL; subst; [apply nl_last_no_nl; assumption|apply nl_last_snoc; assumption]. }
+    pose proof (wrap_line_fits (lw_reset st) line Hl Hp eq_refl eq_refl) as HF.
+    pose proof (wrap_line_wrapped ch_width utf8_len (lw_reset st) line Hl eq_refl) as HW.
+    pose proof (proj2 (wrap_words_state ch_width utf8_len (lw_reset st) (find_words line))) as Hh.
+    destruct (WrapModel.wrap_words ch_width utf8_len (lw_reset st) (find_words line)) as [out st'].
+    cbn [fst snd] in *. cbn [lw_reset hard_width] in Hh, HF.
+    rewrite concat_app.
+    inversion GL as [|l Hn|b rest' Hn GL']; subst.
+    + cbn [WrapModel.wrap_lines concat]. rewrite app_nil_r. exact HF.
+    + destruct (WrappedP_ends_nl _ _ _ HW b eq_refl) as [o' Ho]. rewrite Ho in *.
+      rewrite <- app_assoc. cbn [app]. unfold lines at 1. rewrite lines_acc_app_nl.
+      apply Forall_app. split.
+      * unfold lines in HF. rewrite lines_acc_app_nl in HF. apply Forall_app in HF. tauto.
+      * rewrite <- Hh. apply IH; assumption.
+Qed.
+
+Theorem wrap_width s hard :
+  plain s = true ->
+  Forall (line_fits hard) (lines (WrapModel.wrap ch_width utf8_len s hard)).
+Proof.
+  intros Hp. unfold WrapModel.wrap.
+  change hard with (hard_width (lw_new hard)) at 1.
+  apply wrap_lines_fits.
+  - apply split_inclusive_aux_good. reflexivity.
+  - apply forallb_concat_Forall. rewrite split_inclusive_concat. exact Hp.
+Qed.
+
+End Bound.
+End Width.
+
+(* ------------------------------------------------------------------ the strict (U+0020-only) reading *)
+
+(** the only whitespace the text uses is U+0020 and the newline *)
+Definition only_sp_nl (s : list N) : Prop := Forall (fun c => is_ws c = true -> c = SP \/ c = NL) s.
+
+Lemma only_sp_nl_all_sp w : only_sp_nl w -> all_ws w = true -> no_nl w -> all_sp w = true.
+Proof.
+  induction w as [|c w IH]; intros Ho Hw Hn; [reflexivity|].
+  inversion Ho as [|? ? Hc Ho']; subst.
+  cbn [all_ws forallb] in Hw. apply andb_true_iff in Hw. destruct Hw as [Hw1 Hw2].
+  unfold no_nl in Hn. cbn [forallb] in Hn. apply andb_true_iff in Hn. destruct Hn as [Hn1 Hn2].
+  cbn [all_sp forallb]. fold (all_sp w). rewrite (IH Ho' Hw2 Hn2), andb_true_r.
+  destruct (Hc Hw1) as [-> | ->]; [reflexivity|discriminate].
+Qed.
+
+Lemma Wrapped_strict ind s o :
+  Wrapped ind s o -> only_sp_nl s -> only_sp_nl ind -> WrappedS ind s o.
+Proof.
+  intros W. induction W as [|c s o W IH|w i s o Hne Hw Hn [Hi [Hiw Hin]] W IH]; intros Hs Hind.
+  - constructor.
+  - constructor. apply IH; [inversion Hs; assumption|exact Hind].
+  - subst i. unfold only_sp_nl in Hs. apply Forall_app in Hs. destruct Hs as [Hs1 Hs2].
+    apply WS_break; [exact Hne| | |apply IH; assumption].
+    + apply only_sp_nl_all_sp; assumption.
+    + apply only_sp_nl_all_sp; assumption.
+Qed.
+
+Section Strict.
+Variable ch_width : N -> N.
+Variable utf8_len : N -> N.
+
+Theorem wrap_strict_on_plain s hard : only_sp_nl s ->
+  exists outs, WrapModel.wrap ch_width utf8_len s hard = concat outs /\
+    Forall2 (fun line o => WrappedS (indent_of line) line o) (split_inclusive s) outs.
+Proof.
+  intros Hs. destruct (wrap_rewrap ch_width utf8_len s hard) as [outs [H1 H2]].
+  exists outs. split; [exact H1|].
+  rewrite <- (split_inclusive_concat s) in Hs.
+  clear H1. induction H2 as [|l o ls outs' W H2 IH]; [constructor|].
+  cbn [concat] in Hs. unfold only_sp_nl in Hs. apply Forall_app in Hs. destruct Hs as [Hl Hr].
+  constructor; [|apply IH; exact Hr].
+  apply Wrapped_strict; [exact W|exact Hl|].
+  destruct (indent_of_prefix l) as [r [E _]]. rewrite E in Hl.
+  apply Forall_app in Hl. tauto.
+Qed.
+End Strict.
+
+(* ------------------------------------------------------------------ observations (witnesses) *)
+
+Definition w1 (c : N) : N := 1.
+
+(** The strict reading fails in general: "a\t b" at width 1 becomes "a\nb", the tab is dropped
+    with the space ([trim_end] trims all Unicode whitespace, breaks happen only after U+0020). *)
+Lemma strict_reading_refuted :
+  exists s hard,
+    filter (fun c => negb (c =? SP) && negb (c =? NL)) (WrapModel.wrap w1 utf8_len_std s hard) <>
+    filter (fun c => negb (c =? SP) && negb (c =? NL)) s.
+Proof. exists [97; 9; 32; 98], 1. vm_compute. discriminate. Qed.
+
+(** [display_width] treats ANY ASCII control character as the start of an escape sequence that
+    runs to the next 'm': "x a\tbb" is believed to be 3 columns wide and is not wrapped at width 3,
+    although the sum of its character widths (tab counted 0) is 5 and it has a breakable space. *)
+Lemma width_control_char_refuted :
+  exists s hard ln,
+    In ln (lines (WrapModel.wrap (table_width [(9, 0)]) utf8_len_std s hard)) /\
+    hard < sumw (table_width [(9, 0)]) (trim_end ln) /\
+    (forall ind u, trim_end ln = ind ++ u -> all_ws ind = true -> In SP u).
+Proof.
+  exists [120; 32; 97; 9; 98; 98], 3, [120; 32; 97; 9; 98; 98].
+  split; [vm_compute; left; reflexivity|]. split; [vm_compute; reflexivity|].
+  intros ind u E Ha. vm_compute in E. destruct ind as [|c ind].
+  - cbn [app] in E. subst u. cbn. tauto.
+  - cbn [app] in E. inversion E; subst. discriminate.
+Qed.
+
+(** StyledStr::wrap does not reset the wrapper between text pieces: after a piece that ends with a
+    blank line the carry-over "indent" is the blank line itself, and an inserted break becomes two
+    line breaks ("\n" ESC[1m " a" at width 0 gives "\n" ESC[1m "\n\na").  The plain-text relation
+    ([Wrapped], indent without newline) therefore does not hold for styled text; [WrappedW] does. *)
+Lemma styled_stale_carryover_witness :
+  styled_wrap w1 utf8_len_std [(true, [10]); (false, [27; 91; 49; 109]); (true, [32; 97])] 0
+  = [10; 27; 91; 49; 109; 10; 10; 97].
+Proof. vm_compute. reflexivity. Qed.
+
+(** hypotheses of the theorems are satisfiable / sanity examples (the textwrap unit tests) *)
+Example wrap_simple : WrapModel.wrap w1 utf8_len_std [102;111;111;32;98;97;114;32;98;97;122] 5
+  = [102;111;111;10;98;97;114;10;98;97;122].
+Proof. vm_compute. reflexivity. Qed.
+Example wrap_leading_ws : WrapModel.wrap w1 utf8_len_std [32;102;111;111;98;97;114;32;98;97;122] 6
+  = [10;32;102;111;111;98;97;114;10;32;98;97;122].
+Proof. vm_compute. reflexivity. Qed.
+Example plain_example : plain [102;111;111;32;98;97;114;10;98] = true.
+Proof. reflexivity. Qed.
+Example ws_narrow_example : forall c, is_ws c = true -> w1 c <= utf8_len_std c.
+Proof. intros c _. unfold w1, utf8_len_std. destruct (c <? 128), (c <? 2048), (c <? 65536); lia. Qed.
+Example only_sp_nl_example : only_sp_nl [97; 32; 98; 10].
+Proof. unfold only_sp_nl. repeat (apply Forall_cons; [intros H; first [discriminate H | auto]|]). apply Forall_nil. Qed.
+Example ansi_zero_example : no_ctrl [97] = true /\ forallb (fun c => negb (c =? 109)) [51;56;59;53;59;49] = true.
+Proof. split; reflexivity. Qed.
